@@ -125,6 +125,10 @@ fn random_tree(rng: &mut Rng, nonce: &mut u64, depth: u32, budget: &mut i32, exi
 }
 
 /// Abstract plan: the model is simulated so that only valid transactions are generated.
+fn burst_pending_any(cfg: &DbCfg) -> bool {
+	cfg.salt == Some([0u8; 32]) && cfg.cols.first().map_or(false, |c| c.uniform && !c.ref_counted)
+}
+
 pub fn gen_plan(rng: &mut Rng, variant: u64, tier: Tier, only_commit_and_log_tail: bool) -> Plan {
 	let (cfg, kind) = config(rng, variant);
 	let mut pools: Vec<Vec<Vec<u8>>> = vec![];
@@ -173,9 +177,17 @@ pub fn gen_plan(rng: &mut Rng, variant: u64, tier: Tier, only_commit_and_log_tai
 	// for every kind whatever the shard count)
 	let flavour = if only_commit_and_log_tail { if variant % 3 == 2 { 2 } else { 0 } } else { ((variant / 8) + (variant / 16)) % 4 };
 	let nested = flavour == 1 || flavour == 3;
-	let mut script: Vec<u8> = if flavour == 2 {
-		// 0 commit, 1 process, 3 flush, 4 enact_one, 5 enact_all, 6 clean
-		vec![0, 1, 3, 0, 1, 3, 4, 4, 6, 0, 1, 3, 5, 6, 0, 1, 3, 0, 1, 3, 4, 6, 0, 1, 3, 5, 6]
+	let mut script: Vec<u8> = if flavour == 2 && kind == "reindex" {
+		// scripted growth: (30) one transaction that overflows the hot page several times; the
+		// first old table is migrated and dropped while the record that dropped it is still in
+		// an uncleaned log and the next old table is only half migrated
+		// (2 = process_reindex)
+		vec![0, 1, 3, 5, 30, 1, 3, 5, 2, 3, 5, 2, 3, 4, 2, 3, 5, 2, 6, 2, 3, 5, 6]
+	} else if flavour == 2 {
+		// 0 commit, 1 process, 3 flush, 4 enact_one, 5 enact_all, 6 clean, 7 restart.
+		// First: log1 holds a flushed, unapplied record while the reclaimed log0 is being
+		// appended to again (unsynced) - and the handle goes away right then
+		vec![0, 1, 3, 0, 1, 3, 4, 4, 6, 0, 1, 7, 0, 1, 3, 0, 1, 3, 4, 4, 6, 0, 1, 3, 5, 6, 0, 1, 3, 0, 1, 3, 4, 6, 0, 1, 3, 5, 6]
 	} else if flavour == 1 {
 		// scripted two-worker windows: (20) the commit stage finishes a further log between the
 		// cleanup stage's flush and its truncation; (21) a record is written and synced while an
@@ -185,6 +197,7 @@ pub fn gen_plan(rng: &mut Rng, variant: u64, tier: Tier, only_commit_and_log_tai
 		vec![]
 	};
 	script.reverse();
+	let n_acts = n_acts.max(script.len() + 6);
 	for i in 0..n_acts {
 		if i % 8 == 7 {
 			mood = rng.below(4);
@@ -204,7 +217,12 @@ pub fn gen_plan(rng: &mut Rng, variant: u64, tier: Tier, only_commit_and_log_tai
 		if reindex {
 			w[2] *= 3;
 		}
+		let mut force_burst = false;
 		let choice = match script.pop() {
+			Some(30) => {
+				force_burst = burst_pending_any(&cfg);
+				0
+			},
 			Some(c) => c as usize,
 			None => rng.weighted(&w),
 		};
@@ -216,6 +234,9 @@ pub fn gen_plan(rng: &mut Rng, variant: u64, tier: Tier, only_commit_and_log_tai
 				let mut cols: Vec<u8> = (0..ncols as u8).collect();
 				rng.shuffle(&mut cols);
 				cols.truncate(touch);
+				if force_burst && !cols.contains(&0) {
+					cols.push(0);
+				}
 				for c in cols {
 					let o = &cfg.cols[c as usize];
 					if o.multitree {
@@ -234,7 +255,7 @@ pub fn gen_plan(rng: &mut Rng, variant: u64, tier: Tier, only_commit_and_log_tai
 						} else if !live.is_empty() {
 							tx.push(Op::DerefTree(c, rng.pick(&live).clone()));
 						}
-					} else if burst_pending && o.uniform && !o.ref_counted && !acts.is_empty() && rng.chance(1, 3) {
+					} else if o.uniform && !o.ref_counted && cfg.salt == Some([0u8; 32]) && ((burst_pending && !acts.is_empty() && rng.chance(1, 3)) || force_burst) {
 						burst_pending = false;
 						let mut ks = pools[c as usize].clone();
 						rng.shuffle(&mut ks);
